@@ -6,6 +6,7 @@ use std::collections::{BTreeMap, HashSet};
 use std::fmt::Debug;
 use std::hash::{Hash, Hasher};
 use std::panic::{catch_unwind, AssertUnwindSafe};
+use std::sync::Arc;
 use std::time::Instant;
 
 use proptest::strategy::BoxedStrategy;
@@ -388,7 +389,8 @@ pub fn write_replay(id: &str, sub: &str, case: &Value, msg: &str) -> String {
 }
 
 /// Run a property; returns the process exit code.
-pub fn run_property(p: &PropertyDef, tier: Tier, seed: u64) -> i32 {
+pub fn run_property(p: Arc<PropertyDef>, tier: Tier, seed: u64) -> i32 {
+    let mut abandoned = 0u64;
     let start = Instant::now();
     let mut violations: Vec<(String, String)> = vec![]; // (replay path, msg)
     let mut known_printed: HashSet<String> = HashSet::new();
@@ -399,7 +401,7 @@ pub fn run_property(p: &PropertyDef, tier: Tier, seed: u64) -> i32 {
             // regression replay of a repaired defect: suppresses nothing
             if let Some(rp) = &e.replay {
                 let path = format!("{}/{}", VERIF_DIR, rp);
-                match replay_file(p, &path) {
+                match replay_file(&p, &path) {
                     Ok(Ok(_)) => {}
                     Ok(Err(msg)) => {
                         println!("VIOLATION property={} replay={}", p.id, path);
@@ -416,7 +418,7 @@ pub fn run_property(p: &PropertyDef, tier: Tier, seed: u64) -> i32 {
         }
         if let Some(rp) = &e.replay {
             let path = format!("{}/{}", VERIF_DIR, rp);
-            match replay_file(p, &path) {
+            match replay_file(&p, &path) {
                 Ok(Ok(o)) if o.known.contains(&e.key) => {
                     println!("KNOWN-FINDING: property={} {} -- {}", p.id, e.key, e.what);
                     known_printed.insert(e.key.clone());
@@ -454,18 +456,50 @@ pub fn run_property(p: &PropertyDef, tier: Tier, seed: u64) -> i32 {
             }
         }
         let t0 = Instant::now();
-        let results: Vec<ShardResult> = std::thread::scope(|s| {
-            let handles: Vec<_> = (0..SHARDS)
-                .map(|shard| {
-                    let sc = &sc;
-                    std::thread::Builder::new()
-                        .stack_size(256 << 20)
-                        .spawn_scoped(s, move || (sc.run_shard)(&ShardArgs { tier, seed, shard }))
-                        .expect("spawn")
+        // Shards run on detached threads and report through a channel: once some shard has found
+        // a failure, the remaining shards get a grace period and are then abandoned (a seeded
+        // defect may make them spin in code that has no step-budget hook); without a failure we
+        // wait for all of them (the process-wide watchdog turns a hang into exit 2).
+        let (tx, rx) = std::sync::mpsc::channel::<ShardResult>();
+        for shard in 0..SHARDS {
+            let tx = tx.clone();
+            let p = Arc::clone(&p);
+            std::thread::Builder::new()
+                .stack_size(256 << 20)
+                .spawn(move || {
+                    let r = (p.subchecks[si].run_shard)(&ShardArgs { tier, seed, shard });
+                    let _ = tx.send(r);
                 })
-                .collect();
-            handles.into_iter().map(|h| h.join().expect("shard thread")).collect()
-        });
+                .expect("spawn");
+        }
+        drop(tx);
+        let mut results: Vec<ShardResult> = vec![];
+        let mut failure_seen_at: Option<Instant> = None;
+        while results.len() < SHARDS as usize {
+            let r = match failure_seen_at {
+                None => rx.recv().map_err(|_| ()),
+                Some(t) => {
+                    let grace = std::time::Duration::from_secs(25);
+                    let left = grace.checked_sub(t.elapsed()).unwrap_or_default();
+                    rx.recv_timeout(left).map_err(|_| ())
+                }
+            };
+            match r {
+                Ok(r) => {
+                    if r.failure.is_some() && failure_seen_at.is_none() {
+                        failure_seen_at = Some(Instant::now());
+                    }
+                    results.push(r);
+                }
+                Err(()) => {
+                    if failure_seen_at.is_some() {
+                        abandoned += SHARDS - results.len() as u64;
+                        println!("note: {} shard(s) of {} abandoned after another shard reported a violation", SHARDS as usize - results.len(), sc.name);
+                    }
+                    break;
+                }
+            }
+        }
         let mut sub_eval = 0;
         let mut sub_nt: HashSet<u64> = HashSet::new();
         let mut sub_samples = 0;
@@ -546,6 +580,7 @@ pub fn run_property(p: &PropertyDef, tier: Tier, seed: u64) -> i32 {
         "excluded_known": known,
         "subchecks": per_sub,
         "shards": SHARDS,
+        "abandoned_shards": abandoned,
     });
     if exhaustive {
         coverage["exhaustive_stage"] = json!(extra_note);
